@@ -12,6 +12,7 @@ def run_check(ctx):
     st = coq.proof_stage(ctx, 'Props.C15', VO + ['Props/C13.vo'], FILES)
     finish_proof(ctx, st)
     scale = 1 if ctx.tier == 'quick' else 16
+    if getattr(ctx, 'changed', None) and ctx.tier == 'quick': scale = 3
     rng = ctx.rng; pool = Pool('ark', rng.fork('pool'), n_rand=2 * min(scale, 4))
     # (a) matrix digests per (gadget, mode) over structured inputs: must be identical for every input
     groups = {}
